@@ -37,7 +37,10 @@ def gen_int_rnn(rng):
   return {'test': 'int_rnn', 'x': x.tolist(), 'lens': lens, 'time_major': rng.random() < 0.3, 'reverse': rng.random() < 0.5, 'keep_order': rng.random() < 0.5,
           'a': rng.randint(-2, 3), 'b': rng.randint(-2, 3), 'c': rng.randint(-2, 3),
           'c0': (np.array([rng.randint(-2, 2) for _ in range(int(np.prod(B)) if B else 1)]).reshape(B).tolist() if rng.random() < 0.4 else None),
-          'bidirectional': rng.random() < 0.3}
+          'bidirectional': rng.random() < 0.3,
+          # which flags are passed at call time (the constructor then holds the value in 'ctor', mostly the opposite one) and which only to the constructor
+          'at_call': [k for k in ('return_carry', 'time_major', 'reverse', 'keep_order') if rng.random() < 0.5],
+          'ctor': {k: rng.random() < 0.7 for k in ('return_carry', 'time_major', 'reverse', 'keep_order')}}
 
 
 def gen_real_rnn(rng):
